@@ -12,7 +12,10 @@ RULE = (
     "non-root spans with distinct sibling starts x {sync, async}; "
     "(b) Hypothesis: rooted trees of <=30 spans, types from a 5-letter "
     "alphabet, sibling starts distinct, drawn prior-information group maps "
-    "and rename maps (keys, mapped names and group-map types kept disjoint, "
+    "and rename maps (keys, mapped names and group-map types disjoint, except "
+    "in a third of the cases with both maps where groups may name mapped "
+    "types: the pipeline renames the whole trace before sequencing it, so "
+    "prior information sees mapped types; "
     "see DESIGN 5 C08), drawn stream order and child-id order. Oracle: "
     "vlib/refseq.py (reference sequencer written from sequencer_HOWTO.md): "
     "one PV event per span, all seven fields equal, previousEventIds equal "
@@ -179,6 +182,8 @@ def classify(case):
         if hit:
             classes.append("group_map_matches")
             nontrivial = True
+    if case.get("maps_overlap"):
+        classes.append("rename_and_group_maps_overlap")
     if case.get("rename"):
         hit = False
         for t, (m, listed) in case["rename"].items():
@@ -273,6 +278,13 @@ def case_strategy():
                 for k in rename_keys}
         if mode in (1, 3):
             rest = [a for a in ALPHA if a not in rename_keys]
+            if rename_keys and draw(st.integers(0, 2)) == 0:
+                # the two maps meet: groups may name mapped types (and the
+                # original types of renamed spans).  The pipeline renames the
+                # whole trace before it sequences it, so prior information
+                # sees the mapped types - the reference does the same.
+                rest = rest + ["M_" + k for k in rename_keys] + rename_keys
+                case["maps_overlap"] = True
             pk = draw(st.lists(st.sampled_from(rest), min_size=1, max_size=2,
                                unique=True))
             groups = {}
